@@ -353,6 +353,20 @@ def rule_falsy_zero(ctx: Ctx, rels: List[str]) -> None:
                         bad = (t, t.operand.id)
                     if isinstance(t, ast.Name) and t.id in numeric:
                         bad = (t, t.id)
+                # any()/all() over a list of *indices* (result of a *_finder / np.nonzero / np.where): index 0 is falsy
+                if isinstance(x, ast.Call) and call_name(x) in ("any", "all") and len(x.args) == 1:
+                    idx_names = set()
+                    for a_ in ast.walk(fn):
+                        if isinstance(a_, ast.Assign) and isinstance(a_.value, ast.Call):
+                            cn_ = (call_name(a_.value) or "").split(".")[-1]
+                            if cn_.endswith("_finder") or cn_ in ("nonzero", "where", "argwhere", "flatnonzero"):
+                                for t_ in a_.targets:
+                                    for y_ in ast.walk(t_):
+                                        if isinstance(y_, ast.Name):
+                                            idx_names.add(y_.id)
+                    used = {y_.id for y_ in ast.walk(x.args[0]) if isinstance(y_, ast.Name)}
+                    if used and used <= idx_names:
+                        bad = (x, "/".join(sorted(used)))
                 if bad:
                     hits += 1
                     node, pn = bad
